@@ -7,13 +7,13 @@ import (
 // HopVerdict is the reference's judgement of the hop fields a router must
 // validate before forwarding or delivering a given input packet.
 type HopVerdict struct {
-	Parsed   bool // the packet has a SCION/EPIC path the reference understands
-	Peering  bool // current hop is a peering hop
-	Xover    bool // an effective cross-over follows the current hop
-	CurMAC   bool // current hop MAC valid under the key for the derived SegID
-	CurExpNs int64
-	NextMAC  bool // (Xover only) first hop of next segment valid
-	NextExpNs int64
+	Parsed     bool // the packet has a SCION/EPIC path the reference understands
+	Peering    bool // current hop is a peering hop
+	Xover      bool // an effective cross-over follows the current hop
+	CurMAC     bool // current hop MAC valid under the key for the derived SegID
+	CurExpNs   int64
+	NextMAC    bool // (Xover only) first hop of next segment valid
+	NextExpNs  int64
 	CurHopOff  int
 	NextHopOff int
 }
